@@ -31,6 +31,9 @@ type Body struct {
 	// Text != "" : the body is certainly not a parseable iCalendar / vCard
 	// object (no BEGIN, no END, content line without colon, empty).
 	Text string `json:"text,omitempty"`
+	// Partial: Data is a strict prefix (possibly empty) of a document that
+	// ends before the root element is complete.
+	Partial bool `json:"partial,omitempty"`
 }
 
 func validXMLBody(sd seedDoc, prolog bool) Body {
